@@ -203,6 +203,7 @@ def rule_hash(
             continue
         if eq is not None:
             zip_prefix_equality(rep, c, eq, rule)
+            radix_blind_component(ctx, rep, c, eq, rule)
         if c.name in EXCEPTIONS:
             rep.observe(f'{rule}: {c.name} exempt: {EXCEPTIONS[c.name]}')
             continue
@@ -357,3 +358,60 @@ def zip_prefix_equality(
             'to every extension of itself (equal objects then also hash '
             'differently)', key='prefix-equality',
         )
+
+
+# ---------------------------------------------------------------------------
+# Radix-blind components.  UnitaryMatrix / StateVector equality is a
+# tolerance comparison of the numbers (shape + allclose) and does not look at
+# how the dimension factors into qudits: the 4x4 matrix U as a [2,2] gate and
+# as a [4] gate are "equal" matrices.  A *gate* class that decides its own
+# equality by comparing such a component must compare the radixes itself,
+# otherwise two gates acting on different numbers of qudits are one key in
+# every table keyed by gate (Circuit._gate_info, the pickle gate table).
+RADIX_BLIND = ('UnitaryMatrix', 'StateVector')
+
+
+def radix_blind_component(
+    ctx: Ctx, rep: Report, c: ClassInfo, eq: FunctionInfo, rule: str,
+) -> None:
+    if not ctx.index.is_subclass(c, 'Gate'):
+        return
+    args = eq.params
+    if len(args) < 2:
+        return
+    me, other = args[0], args[1]
+    init = c.methods.get('__init__')
+    if init is None:
+        return
+    typed = set()
+    for n in ast.walk(init.node):
+        if isinstance(n, (ast.Assign, ast.AnnAssign)):
+            t = n.targets[0] if isinstance(n, ast.Assign) else n.target
+            v = n.value
+            if isinstance(t, ast.Attribute) and norm(t.value) == 'self' and (
+                    isinstance(v, ast.Call) and norm(v.func) in RADIX_BLIND):
+                typed.add(t.attr)
+    compared = []
+    for x in ast.walk(eq.node):
+        if isinstance(x, ast.Compare) and len(x.ops) == 1 and isinstance(
+                x.ops[0], (ast.Eq, ast.NotEq)):
+            a, b = norm(x.left), norm(x.comparators[0])
+            for attr in typed:
+                if {a, b} == {f'{me}.{attr}', f'{other}.{attr}'}:
+                    compared.append(attr)
+    if not compared:
+        return
+    txt = norm(eq.node)
+    ok = any(f'{me}.{r} == {other}.{r}' in txt or f'{other}.{r} == {me}.{r}'
+             in txt or f'{me}.{r} != {other}.{r}' in txt
+             for r in ('radixes', '_radixes'))
+    rep.count()
+    rep.check(
+        ok, rule, f'{c.name}.__eq__:radixes', c.path, eq.lineno,
+        'the radixes are compared next to the matrix',
+        f'{c.name}.__eq__ compares `{compared[0]}` (a {"/".join(RADIX_BLIND)}'
+        ', whose equality ignores radixes) and nothing else: the same matrix '
+        'as a [2,2] gate and as a [4] gate are equal and hash alike, so a '
+        'circuit holding both keeps one entry for them and cannot be pickled '
+        'back', key='radix-blind',
+    )
